@@ -37,7 +37,7 @@ def monitor(case, evs):
 def build_cases(c):
     rng = c.rng
     cases = []
-    n = 220 if c.tier == "quick" else 4000
+    n = 220 if c.tier == "quick" else 1500
     cfgs = [(a, b) for a in range(0, 18) for b in range(a, 18)]
     for i in range(n):
         cfg = rng.choice(cfgs) if rng.random() < 0.7 else rng.choice([(0, 0), (0, 17), (17, 17), (4, 10), (16, 17), (0, 1)])
@@ -78,7 +78,7 @@ def build_cases(c):
 def desire_cases(c):
     rng = c.rng
     res = []
-    n = 150 if c.tier == "quick" else 3000
+    n = 150 if c.tier == "quick" else 1500
     for i in range(n):
         lo = rng.randint(0, 17)
         hi = rng.randint(lo, 17)
